@@ -12,6 +12,7 @@ import (
 	"github.com/elastic/go-txfile/txerr"
 
 	"verifharness/model"
+	"verifharness/simdisk"
 )
 
 // C18: the path lock. The one campaign on the OS file system: sequences of
@@ -189,11 +190,61 @@ func c18Sequence(rep *Report, m *model.Client, r *rand.Rand, dir string, idx int
 	}
 }
 
+// c18Unmapped: a File that lost its memory mapping (the remap of a commit failed after munmap: finding F3 of C08) is
+// closed: Close must still release the path lock, whatever it returns; the path can be opened again at once.
+func c18Unmapped(rep *Report, r *rand.Rand) {
+	for _, fk := range []simdisk.OpKind{simdisk.OpMMap, simdisk.OpSize} {
+		d := simdisk.New("c18")
+		opts := txfile.Options{PageSize: 1024, MaxSize: 0}
+		f, err := txfile.VerifOpen(d, opts)
+		if err != nil {
+			continue
+		}
+		tx, err := f.Begin()
+		if err != nil {
+			f.Close()
+			continue
+		}
+		tx.AllocN(100 + r.Intn(100)) // grows the file past its 64 KiB mapping: the commit has to re-map
+		d.SetFaults([]simdisk.FaultRule{{Kind: fk, From: d.Count(fk), Len: 1}})
+		cerr := tx.Commit()
+		d.SetFaults(nil)
+		mapped := txfile.VerifSnapshot(f).MappedLen
+		rep.Evaluations++
+		rep.count(fmt.Sprintf("unmapped-close:%v:commit-failed=%v:mapped=%v", fk, cerr != nil, mapped > 0), 1)
+		done := make(chan error, 1)
+		go func() { done <- f.Close() }()
+		select {
+		case <-done:
+		case <-time.After(10 * time.Second):
+			rep.violate(Violation{Kind: "oracle", Sig: "path-lock/close-of-unmapped-file-hangs", Detail: "File.Close does not return on a File whose re-mapping had failed",
+				Replay: map[string]interface{}{"scenario": "unmapped-close", "fault": fk.String()}})
+			continue
+		}
+		rep.nontrivial(fmt.Sprintf("unmapped-close/%v/%v", fk, mapped > 0))
+		if d.Locked() {
+			rep.violate(Violation{Kind: "oracle", Sig: "path-lock/held-after-close-of-unmapped-file",
+				Detail: fmt.Sprintf("after File.Close the path lock is still held (the commit that grew the file failed in its %v step, the File had no mapping: mapped=%d)", fk, mapped),
+				Replay: map[string]interface{}{"scenario": "unmapped-close", "fault": fk.String()}})
+			continue
+		}
+		if f2, err := txfile.VerifOpen(d, txfile.Options{}); err != nil {
+			if txerr.Is(txfile.LockFailed, err) {
+				rep.violate(Violation{Kind: "oracle", Sig: "path-lock/reopen-after-close-of-unmapped-file",
+					Detail: "after File.Close the path can not be opened again: " + err.Error(),
+					Replay: map[string]interface{}{"scenario": "unmapped-close", "fault": fk.String()}})
+			}
+		} else {
+			f2.Close()
+		}
+	}
+}
+
 func init() {
 	register("c18", func(args []string) int {
 		f := parseFlags("c18", args)
 		rep := newReport("C18", f)
-		rep.Rule = "random sequences of open / open with invalid options / open of a file whose two headers were destroyed (initialisation fails after the lock was taken) / open while another File holds the path / open with FlagWaitLock while held (must block until the holder closes) / close on real files in a temporary directory; each result class (ok, lock error, other error) and the lock state is compared with Model/OpenLock.v; after every sequence the path must be lockable again. Non-trivial: distinct step/result sequences."
+		rep.Rule = "random sequences of open / open with invalid options / open of a file whose two headers were destroyed (initialisation fails after the lock was taken) / open while another File holds the path / open with FlagWaitLock while held (must block until the holder closes) / close on real files in a temporary directory; each result class (ok, lock error, other error) and the lock state is compared with Model/OpenLock.v; after every sequence the path must be lockable again; on the simulated disk: a File whose re-mapping failed in a commit (no memory mapping left) is closed - the path lock must be released and the path can be opened again. Non-trivial: distinct step/result sequences."
 		m, err := model.Start()
 		if err != nil {
 			fmt.Fprintln(os.Stderr, err)
@@ -216,6 +267,9 @@ func init() {
 		}
 		for i := 0; i < n; i++ {
 			c18Sequence(rep, m, r, dir, i)
+		}
+		for i := 0; i < 3+n/50; i++ {
+			c18Unmapped(rep, r)
 		}
 		rep.ModelCalls = m.N
 		return rep.finish(f)
